@@ -3,11 +3,84 @@ package main
 // C09 — packet headers (DESIGN §3 C09).
 
 import (
+	"encoding/json"
 	"fmt"
+	"go/ast"
+	"go/token"
 	"go/types"
+	"os"
+	"path/filepath"
 	"sort"
 	"strings"
 )
+
+func init() {
+	register(&propCheck{
+		ID:    "C09",
+		Run:   runC09,
+		Level: "Static analysis (bit-lane abstract interpretation of every packet-header encoder and decoder against RFC/IEEE bit layouts; typed-AST switch tables; write/read record comparison; symbolic size terms). Decides structural parts of the statement: lanes/<kind>/enc/<field>, lanes/<kind>/dec/<field> — on every path of the encoder each wire bit of the header carries the bit of the Go field that spec/packet_layout.json (transcribed from the RFC diagrams) puts there, reserved bits are 0, and on every successful path of the decoder each field bit is read from that wire bit and the bits above the field's width are 0; both sides are compared with the same layout, so for all in-range values of a packed group (all 2^8 / 2^16 combinations at once) decode(encode(h)) = h, neighbours are not disturbed, and encode(decode(w)) = w on the specified bits; word/<kind> — the LLDP TLV type/length word is packed and unpacked at type(7)|length(9); demux/<decoder>/<code> — the switch on ethertype / IPv4 protocol / IPv6 next header allocates the kind the table names for each code, required codes are present, the ethertype switched on is the one read after the VLAN tag (lanes of Ethernet on the tagged path), and each IPv6 extension case continues with that header's NextHeader and advances by that header's Len; mirror/<kind>/<field>, extent/<kind>, fresh, exhaust, retain — as C05/C06 for the header kinds (same field at same offset/width/order in encoder and decoder; size function ≡ bytes produced; list loops decode every element into a new value and keep it); presence/<kind>/<part> — the condition under which the encoder emits an optional part is one the decoder re-establishes when it finds the part. Not decided: equality of payload values beyond the records (bytes copied verbatim); checksums; count fields of hand-built values (premises of the statement); DHCP option contents.",
+		Assumptions: []string{
+			"spec/packet_layout.json transcribes the RFC 791/793/768/792/826/2236/3376/8200 and IEEE 802.1Q/802.1AB diagrams",
+			"well-formed headers: every field within its declared width, IHL >= 5 (the statement's premise)",
+			"encoding/binary and bytes.Buffer behave as documented",
+		},
+	})
+}
+
+type pktField struct {
+	Name       string
+	Start, Len int
+}
+
+type pktHeader struct {
+	Kind   string           `json:"kind"`
+	Cite   string           `json:"cite"`
+	Enc    string           `json:"enc"`
+	Dec    string           `json:"dec"`
+	Local  string           `json:"local"`
+	Bits   int              `json:"bits"`
+	Fields [][]any          `json:"fields"`
+	Zero   [][]int          `json:"zero"`
+	Min    map[string]int64 `json:"min"`
+}
+
+func (h *pktHeader) fields() []pktField {
+	var out []pktField
+	for _, f := range h.Fields {
+		if len(f) != 3 {
+			continue
+		}
+		n, _ := f[0].(string)
+		a, _ := f[1].(float64)
+		b, _ := f[2].(float64)
+		out = append(out, pktField{n, int(a), int(b)})
+	}
+	return out
+}
+
+type pktDemux struct {
+	On       string            `json:"on"`
+	Cases    map[string]string `json:"cases"`
+	Required []string          `json:"required"`
+}
+
+type pktSpec struct {
+	Headers []*pktHeader               `json:"headers"`
+	Words   []*pktHeader               `json:"words"`
+	Demux   map[string]json.RawMessage `json:"demux"`
+}
+
+func loadPacketLayout() (*pktSpec, error) {
+	b, err := os.ReadFile(filepath.Join(verifRoot(), "spec", "packet_layout.json"))
+	if err != nil {
+		return nil, err
+	}
+	var s pktSpec
+	if err := json.Unmarshal(b, &s); err != nil {
+		return nil, err
+	}
+	return &s, nil
+}
 
 func init() {
 	extraDumps["bv"] = func(w *World, args []string) {
@@ -166,5 +239,816 @@ func init() {
 				}
 			}
 		}
+	}
+}
+
+// ---------------------------------------------------------------- C09
+
+func runC09(w *World, r *Report) {
+	r.Rule("lanes", "every header bit carries the specified field bit (encoder) and every field bit is read from the specified header bit (decoder)", 100)
+	r.Rule("word", "the LLDP TLV type/length word is packed and unpacked at type(7) | length(9)", 6)
+	r.Rule("demux", "payload switches allocate the kind the protocol-number table names", 12)
+	r.Rule("mirror", "fields written by an encoder are read back from the same offset, width and byte order into the same field", 40)
+	r.Rule("extent", "the size a header reports equals the bytes its encoder produces", 15)
+	r.Rule("fresh", "a value decoded into inside a list loop is new in each iteration", 2)
+	r.Rule("exhaust", "list-decoding loops run while any element can remain", 2)
+	r.Rule("retain", "elements decoded in list loops are stored into the receiver", 2)
+	r.Rule("presence", "the encoder's test for an optional part is one the decoder re-establishes when it finds the part", 1)
+	spec, err := loadPacketLayout()
+	if err != nil {
+		r.Fail(VUnmapped, "lanes", "spec/packet_layout.json", "", "-", "cannot load the layout table: "+err.Error())
+		return
+	}
+	for _, h := range spec.Headers {
+		lanesHeader(w, r, h)
+	}
+	for _, h := range spec.Words {
+		lanesWord(w, r, h)
+	}
+	lanesEthernet(w, r)
+	demuxRule(w, r, spec)
+	// ---- sibling agreement and sizes of the header kinds
+	nK := 0
+	for _, k := range w.KindsL {
+		if !strings.HasPrefix(k.Name, "protocol.") {
+			continue
+		}
+		if k.Marshal != nil && k.Unmarshal != nil && k.OwnMarshal && k.OwnUnmarshal {
+			efi, dfi := w.FuncOf(k.Marshal), w.FuncOf(k.Unmarshal)
+			if efi != nil && dfi != nil {
+				nK++
+				mirrorKind(w, r, k, efi, dfi)
+			}
+		}
+		if k.Marshal != nil && k.Len != nil {
+			pos := "-"
+			if fi := w.FuncOf(k.Marshal); fi != nil {
+				pos = w.Pos(fi.Decl.Pos())
+			}
+			sv := w.compareSize(k)
+			if sv.Verdict == VOK {
+				r.OK("extent", k.Name, "", pos, sv.Note, sv.Symbolic)
+			} else {
+				r.Fail(sv.Verdict, "extent", k.Name, "", pos, "the reported size is not the number of bytes the encoder produces: "+sv.Diag)
+			}
+		}
+		if k.Unmarshal != nil && k.OwnUnmarshal {
+			if dfi := w.FuncOf(k.Unmarshal); dfi != nil {
+				retainRule(w, r, dfi)
+				freshRule(w, r, dfi)
+				exhaustRule(w, r, dfi)
+			}
+		}
+	}
+	r.Stats["header_kinds_two_way"] = nK
+	presenceEthernet(w, r)
+}
+
+// wireBit: header bit b (diagram numbering, bit 0 = MSB of byte 0) is bit 7-b%8 of byte b/8.
+func wireBit(b int) (byteOff, bit int) { return b / 8, 7 - b%8 }
+
+func pathName(p *bvPath) string {
+	if len(p.Conds) == 0 {
+		return "straight"
+	}
+	return strings.Join(p.Conds, " && ")
+}
+
+// declaredRecv builds the receiver sources of a header kind with the widths the layout declares.
+func declaredRecv(w *World, fi *FuncInfo, h *pktHeader, ctx *bvCtx) (map[string]BV, map[string]*bvVal) {
+	decl := map[string]int{}
+	for _, f := range h.fields() {
+		decl[f.Name] = f.Len
+	}
+	recv, sub := bvRecvOf(w, fi, decl)
+	for name, v := range recv {
+		if d, ok := decl[name]; ok && !v.IsBool {
+			lo := int64(0)
+			if m, ok := h.Min[name]; ok {
+				lo = m
+			}
+			hi := int64(1)<<uint(d) - 1
+			if d >= 63 {
+				continue
+			}
+			nv := ctx.declare(name, v.W, v.Signed, lo, hi)
+			recv[name] = nv
+		}
+	}
+	return recv, sub
+}
+
+func lanesHeader(w *World, r *Report, h *pktHeader) {
+	enc, dec := w.Funcs[h.Enc], w.Funcs[h.Dec]
+	if enc == nil || dec == nil {
+		r.Fail(VViolation, "lanes", h.Kind, "", "-", "the codec functions "+h.Enc+" / "+h.Dec+" no longer exist (anchor of the rule cannot be resolved)")
+		return
+	}
+	fields := h.fields()
+	// ---------------- encoder
+	{
+		ctx := newBvCtx()
+		recv, sub := declaredRecv(w, enc, h, ctx)
+		bi := &bvInterp{w: w, fi: enc, info: enc.Pkg.TypesInfo, tolerant: true}
+		paths := bi.run(ctx, recv, sub, nil, 0, nil)
+		pos := w.Pos(enc.Decl.Pos())
+		type agg struct {
+			ok   int
+			bad  []string
+			und  []string
+			note string
+		}
+		res := map[string]*agg{}
+		get := func(k string) *agg {
+			if res[k] == nil {
+				res[k] = &agg{}
+			}
+			return res[k]
+		}
+		checked := 0
+		for _, p := range paths {
+			if len(p.Ret) == 0 || p.Ret[0] == nil || p.Ret[0].View == nil {
+				continue // a path that returns no buffer (nil, err)
+			}
+			checked++
+			buf := p.Ret[0].View.Buf
+			// a write at an offset the engine knows only symbolically could alias a header byte
+			aliasLow := int64(1 << 40)
+			for k := range buf.Cells {
+				var c int64
+				if _, err := fmt.Sscan(k, &c); err == nil && fmt.Sprint(c) == k {
+					continue
+				}
+				aliasLow = 0 // unknown place: treat every byte as possibly overwritten
+			}
+			bitAt := func(hb int) (Bit, string) {
+				bo, bt := wireBit(hb)
+				if int64(bo) >= aliasLow {
+					return Bit{K: 'T'}, "a write at a symbolic offset may alias this byte"
+				}
+				c, ok := bi.cell(p, &bvView{Buf: buf, Base: Const(0)}, Const(int64(bo)))
+				if !ok {
+					return Bit{K: 'T'}, "byte overwritten by code the engine does not follow"
+				}
+				return p.resolve(c.Bits[bt]), c.Why
+			}
+			for _, f := range fields {
+				a := get("enc/" + f.Name)
+				for i := 0; i < f.Len; i++ {
+					hb := f.Start + f.Len - 1 - i // field bit i (LSB = 0)
+					got, why := bitAt(hb)
+					want := p.resolve(Bit{K: 's', Src: f.Name, I: i})
+					if got == want {
+						continue
+					}
+					bo, bt := wireBit(hb)
+					msg := fmt.Sprintf("on path [%s] byte %d bit %d carries %s, specified %s", pathName(p), bo, bt, got.String(), want.String())
+					if why != "" {
+						msg += " (" + why + ")"
+					}
+					if got.K == 'T' {
+						a.und = append(a.und, msg)
+					} else {
+						a.bad = append(a.bad, msg)
+					}
+				}
+				a.ok++
+			}
+			for _, z := range h.Zero {
+				if len(z) != 2 {
+					continue
+				}
+				a := get(fmt.Sprintf("enc/reserved@%d", z[0]))
+				for hb := z[0]; hb < z[0]+z[1]; hb++ {
+					got, why := bitAt(hb)
+					if got.K == '0' {
+						continue
+					}
+					bo, bt := wireBit(hb)
+					msg := fmt.Sprintf("on path [%s] reserved byte %d bit %d carries %s, specified 0", pathName(p), bo, bt, got.String())
+					if why != "" {
+						msg += " (" + why + ")"
+					}
+					if got.K == 'T' {
+						a.und = append(a.und, msg)
+					} else {
+						a.bad = append(a.bad, msg)
+					}
+				}
+				a.ok++
+			}
+		}
+		if checked == 0 {
+			r.Fail(VUndecided, "lanes", h.Kind, "enc", pos, "no path of the encoder returns a buffer the engine can follow")
+		}
+		var keys []string
+		for k := range res {
+			keys = append(keys, k)
+		}
+		sort.Strings(keys)
+		for _, k := range keys {
+			a := res[k]
+			switch {
+			case len(a.bad) > 0:
+				r.Fail(VViolation, "lanes", h.Kind, k, pos, summarise(a.bad)+" — "+h.Cite)
+			case len(a.und) > 0:
+				r.Fail(VUndecided, "lanes", h.Kind, k, pos, summarise(a.und))
+			default:
+				r.OK("lanes", h.Kind, k, pos, fmt.Sprintf("at the specified bits on all %d encoder paths — %s", checked, h.Cite), true)
+			}
+		}
+	}
+	// ---------------- decoder
+	{
+		ctx := newBvCtx()
+		recv, sub := bvRecvOf(w, dec, nil)
+		for k, v := range recv {
+			nv := srcBV("old."+k, v.W, v.W, v.Signed)
+			nv.IsBool = v.IsBool
+			nv.Lin = nil
+			recv[k] = nv
+		}
+		var as []*bvVal
+		for _, fl := range dec.Decl.Type.Params.List {
+			for range fl.Names {
+				if isByteSlice(dec.Pkg.TypesInfo.TypeOf(fl.Type)) {
+					as = append(as, symView("P", ValOf("len(P)")))
+				} else {
+					as = append(as, nil)
+				}
+			}
+		}
+		bi := &bvInterp{w: w, fi: dec, info: dec.Pkg.TypesInfo, tolerant: true}
+		paths := bi.run(ctx, recv, sub, as, 0, nil)
+		pos := w.Pos(dec.Decl.Pos())
+		type agg struct{ bad, und []string }
+		res := map[string]*agg{}
+		checked := 0
+		for _, p := range paths {
+			if n := len(p.Ret); n > 0 && p.Ret[n-1] != nil && (strings.HasPrefix(p.Ret[n-1].Opaque, "call:errors.") || strings.HasPrefix(p.Ret[n-1].Opaque, "call:fmt.")) {
+				continue // rejecting path
+			}
+			stored := map[string]bool{}
+			for _, s := range p.Stores {
+				stored[s] = true
+			}
+			checked++
+			for _, f := range fields {
+				a := res["dec/"+f.Name]
+				if a == nil {
+					a = &agg{}
+					res["dec/"+f.Name] = a
+				}
+				v, ok := p.Recv[f.Name]
+				if !ok || !stored[f.Name] {
+					a.bad = append(a.bad, fmt.Sprintf("on path [%s] the field is not assigned", pathName(p)))
+					continue
+				}
+				for i := 0; i < len(v.Bits); i++ {
+					got := p.resolve(v.Bits[i])
+					want := Bit{K: '0'}
+					if i < f.Len {
+						bo, bt := wireBit(f.Start + f.Len - 1 - i)
+						want = Bit{K: 's', Src: fmt.Sprintf("P[%d]", bo), I: bt}
+					}
+					if v.IsBool && i > 0 {
+						break
+					}
+					if got == want {
+						continue
+					}
+					msg := fmt.Sprintf("on path [%s] bit %d of %s is read from %s, specified %s", pathName(p), i, f.Name, got.String(), want.String())
+					if v.Why != "" {
+						msg += " (" + v.Why + ")"
+					}
+					if got.K == 'T' {
+						a.und = append(a.und, msg)
+					} else {
+						a.bad = append(a.bad, msg)
+					}
+				}
+			}
+		}
+		if checked == 0 {
+			r.Fail(VUndecided, "lanes", h.Kind, "dec", pos, "no accepting path of the decoder")
+		}
+		var keys []string
+		for k := range res {
+			keys = append(keys, k)
+		}
+		sort.Strings(keys)
+		for _, k := range keys {
+			a := res[k]
+			switch {
+			case len(a.bad) > 0:
+				r.Fail(VViolation, "lanes", h.Kind, k, pos, summarise(a.bad)+" — "+h.Cite)
+			case len(a.und) > 0:
+				r.Fail(VUndecided, "lanes", h.Kind, k, pos, summarise(a.und))
+			default:
+				r.OK("lanes", h.Kind, k, pos, fmt.Sprintf("read from the specified bits on all %d accepting decoder paths, bits above the width are 0 — %s", checked, h.Cite), true)
+			}
+		}
+	}
+}
+
+func summarise(msgs []string) string {
+	if len(msgs) > 3 {
+		return strings.Join(msgs[:3], "; ") + fmt.Sprintf("; … %d more", len(msgs)-3)
+	}
+	return strings.Join(msgs, "; ")
+}
+
+// lanesWord: a packed local word (LLDP TLV header).
+func lanesWord(w *World, r *Report, h *pktHeader) {
+	enc, dec := w.Funcs[h.Enc], w.Funcs[h.Dec]
+	if enc == nil || dec == nil {
+		r.Fail(VViolation, "word", h.Kind, "", "-", "the codec functions "+h.Enc+" / "+h.Dec+" no longer exist")
+		return
+	}
+	fields := h.fields()
+	{
+		ctx := newBvCtx()
+		recv, sub := declaredRecv(w, enc, h, ctx)
+		bi := &bvInterp{w: w, fi: enc, info: enc.Pkg.TypesInfo, tolerant: true}
+		paths := bi.run(ctx, recv, sub, []*bvVal{symView("b", ValOf("len(b)"))}, 0, nil)
+		pos := w.Pos(enc.Decl.Pos())
+		var bad, und []string
+		n := 0
+		for _, p := range paths {
+			v := p.Locals[h.Local]
+			if v == nil || !v.isInt() || v.BV.W != h.Bits {
+				und = append(und, fmt.Sprintf("on path [%s] the packed word %s is not a %d-bit value the engine can follow", pathName(p), h.Local, h.Bits))
+				continue
+			}
+			n++
+			for _, f := range fields {
+				for i := 0; i < f.Len; i++ {
+					wb := h.Bits - 1 - (f.Start + f.Len - 1 - i) // word bit index (LSB = 0)
+					got := p.resolve(v.BV.Bits[wb])
+					want := Bit{K: 's', Src: f.Name, I: i}
+					if got != want {
+						m := fmt.Sprintf("word bit %d carries %s, specified %s", wb, got.String(), want.String())
+						if got.K == 'T' {
+							und = append(und, m)
+						} else {
+							bad = append(bad, m)
+						}
+					}
+				}
+			}
+		}
+		switch {
+		case len(bad) > 0:
+			r.Fail(VViolation, "word", h.Kind, "pack", pos, summarise(bad)+" — "+h.Cite)
+		case len(und) > 0 || n == 0:
+			if len(und) == 0 {
+				und = append(und, "no path packs the word")
+			}
+			r.Fail(VUndecided, "word", h.Kind, "pack", pos, summarise(und))
+		default:
+			r.OK("word", h.Kind, "pack", pos, fmt.Sprintf("%s = %s on all %d paths — %s", h.Local, "type<<9 | length", n, h.Cite), true)
+		}
+	}
+	{
+		ctx := newBvCtx()
+		recv, sub := bvRecvOf(w, dec, nil)
+		bi := &bvInterp{w: w, fi: dec, info: dec.Pkg.TypesInfo, tolerant: true}
+		paths := bi.run(ctx, recv, sub, []*bvVal{symView("b", ValOf("len(b)"))}, 0, nil)
+		pos := w.Pos(dec.Decl.Pos())
+		var bad, und []string
+		n := 0
+		for _, p := range paths {
+			stored := map[string]bool{}
+			for _, s := range p.Stores {
+				stored[s] = true
+			}
+			all := true
+			for _, f := range fields {
+				if !stored[f.Name] {
+					all = false
+				}
+			}
+			if !all {
+				continue // a path that stops before the word was unpacked (read error)
+			}
+			wv := p.Locals[h.Local]
+			if wv == nil || !wv.isInt() {
+				und = append(und, "the word "+h.Local+" is not an integer the engine can follow")
+				continue
+			}
+			n++
+			for _, f := range fields {
+				v := p.Recv[f.Name]
+				for i := 0; i < len(v.Bits); i++ {
+					want := Bit{K: '0'}
+					if i < f.Len {
+						wb := h.Bits - 1 - (f.Start + f.Len - 1 - i)
+						want = p.resolve(wv.BV.Bits[wb])
+					}
+					got := p.resolve(v.Bits[i])
+					if got != want {
+						m := fmt.Sprintf("bit %d of %s is %s, specified %s", i, f.Name, got.String(), want.String())
+						if got.K == 'T' || want.K == 'T' {
+							und = append(und, m)
+						} else {
+							bad = append(bad, m)
+						}
+					}
+				}
+			}
+		}
+		switch {
+		case len(bad) > 0:
+			r.Fail(VViolation, "word", h.Kind, "unpack", pos, summarise(bad)+" — "+h.Cite)
+		case len(und) > 0 || n == 0:
+			if n == 0 && len(und) == 0 {
+				und = append(und, "no path unpacks the word")
+			}
+			r.Fail(VUndecided, "word", h.Kind, "unpack", pos, summarise(und))
+		default:
+			r.OK("word", h.Kind, "unpack", pos, fmt.Sprintf("type = word[15..9], length = word[8..0] on all %d paths — %s", n, h.Cite), true)
+		}
+	}
+}
+
+func boolInt(b bool) int {
+	if b {
+		return 1
+	}
+	return 0
+}
+
+// lanesEthernet: the frame header with and without an 802.1Q tag (IEEE 802.3 §3.1.1, 802.1Q §9.3): addresses
+// 0..11; untagged: ethertype at 12; tagged: TPID/TCI at 12..15 and the ethertype at 16.
+func lanesEthernet(w *World, r *Report) {
+	enc, dec := w.Funcs["protocol.Ethernet.MarshalBinary"], w.Funcs["protocol.Ethernet.UnmarshalBinary"]
+	if enc == nil || dec == nil {
+		r.Fail(VViolation, "lanes", "protocol.Ethernet", "", "-", "the Ethernet codec no longer exists (anchor of the rule cannot be resolved)")
+		return
+	}
+	vlan := []pktField{{"TPID", 0, 16}, {"PCP", 16, 3}, {"DEI", 19, 1}, {"VID", 20, 12}}
+	beBits := func(base, width int, i int) (int, int) { return wireBit(base*8 + width - 1 - i) }
+	errOnly := func(p *bvPath) bool {
+		// a path on which some step reported an error and the function returned early
+		n := pathName(p)
+		return strings.HasSuffix(n, "err != nil") && !strings.HasSuffix(n, "!(err != nil)")
+	}
+	// ---- encoder
+	{
+		ctx := newBvCtx()
+		decl := map[string]int{"HWDst": 6, "HWSrc": 6, "VLANID.PCP": 3, "VLANID.DEI": 1, "VLANID.VID": 12}
+		recv, sub := bvRecvOf(w, enc, decl)
+		bi := &bvInterp{w: w, fi: enc, info: enc.Pkg.TypesInfo, tolerant: true}
+		paths := bi.run(ctx, recv, sub, nil, 0, nil)
+		pos := w.Pos(enc.Decl.Pos())
+		seen := map[string]int{}
+		var bad []string
+		for _, p := range paths {
+			if len(p.Ret) == 0 || p.Ret[0] == nil || p.Ret[0].View == nil || errOnly(p) {
+				continue
+			}
+			view := &bvView{Buf: p.Ret[0].View.Buf, Base: Const(0)}
+			word := func(off int, src string, width int) bool {
+				for i := 0; i < width; i++ {
+					bo, bt := beBits(off, width, i)
+					c, ok := bi.cell(p, view, Const(int64(bo)))
+					if !ok || p.resolve(c.Bits[bt]) != (Bit{K: 's', Src: src, I: i}) {
+						return false
+					}
+				}
+				return true
+			}
+			tagOK := func() bool {
+				for _, f := range vlan {
+					for i := 0; i < f.Len; i++ {
+						bo, bt := wireBit(12*8 + f.Start + f.Len - 1 - i)
+						c, ok := bi.cell(p, view, Const(int64(bo)))
+						if !ok || p.resolve(c.Bits[bt]) != (Bit{K: 's', Src: "VLANID." + f.Name, I: i}) {
+							return false
+						}
+					}
+				}
+				return true
+			}
+			switch {
+			case word(12, "Ethertype", 16):
+				seen["untagged"]++
+			case tagOK() && word(16, "Ethertype", 16):
+				seen["tagged"]++
+			default:
+				bad = append(bad, fmt.Sprintf("on path [%s] bytes 12..17 are neither ethertype@12 nor tag@12 + ethertype@16", pathName(p)))
+			}
+		}
+		switch {
+		case len(bad) > 0:
+			r.Fail(VViolation, "lanes", "protocol.Ethernet", "enc/frame", pos, summarise(bad))
+		case seen["untagged"] == 0 || seen["tagged"] == 0:
+			r.Fail(VViolation, "lanes", "protocol.Ethernet", "enc/frame", pos, fmt.Sprintf("the encoder has %d untagged and %d tagged layouts; both are specified", seen["untagged"], seen["tagged"]))
+		default:
+			r.OK("lanes", "protocol.Ethernet", "enc/frame", pos, fmt.Sprintf("ethertype at 12 on the %d untagged paths; TPID/PCP/DEI/VID at 12..15 and ethertype at 16 on the %d tagged paths", seen["untagged"], seen["tagged"]), true)
+		}
+	}
+	// ---- decoder
+	{
+		ctx := newBvCtx()
+		recv, sub := bvRecvOf(w, dec, nil)
+		bi := &bvInterp{w: w, fi: dec, info: dec.Pkg.TypesInfo, tolerant: true}
+		paths := bi.run(ctx, recv, sub, []*bvVal{symView("P", ValOf("len(P)"))}, 0, nil)
+		pos := w.Pos(dec.Decl.Pos())
+		seen := map[string]int{}
+		var bad []string
+		for _, p := range paths {
+			if n := len(p.Ret); n > 0 && p.Ret[n-1] != nil && (strings.HasPrefix(p.Ret[n-1].Opaque, "call:errors.") || strings.HasPrefix(p.Ret[n-1].Opaque, "call:fmt.")) {
+				continue
+			}
+			if errOnly(p) {
+				continue
+			}
+			et, ok := p.Recv["Ethertype"]
+			if !ok {
+				continue
+			}
+			from := func(v BV, off, width int) bool {
+				if len(v.Bits) < width {
+					return false
+				}
+				for i := 0; i < width; i++ {
+					bo, bt := beBits(off, width, i)
+					if p.resolve(v.Bits[i]) != (Bit{K: 's', Src: fmt.Sprintf("P[%d]", bo), I: bt}) {
+						return false
+					}
+				}
+				return true
+			}
+			switch {
+			case from(et, 12, 16):
+				seen["untagged"]++
+			case from(et, 16, 16):
+				vv := p.RecvSub["VLANID"]
+				okTag := vv != nil && vv.Fields != nil
+				if okTag {
+					for _, f := range vlan {
+						v := vv.Fields[f.Name]
+						for i := 0; i < len(v.Bits); i++ {
+							want := Bit{K: '0'}
+							if i < f.Len {
+								bo, bt := wireBit(12*8 + f.Start + f.Len - 1 - i)
+								want = Bit{K: 's', Src: fmt.Sprintf("P[%d]", bo), I: bt}
+							}
+							if p.resolve(v.Bits[i]) != want {
+								okTag = false
+							}
+						}
+					}
+				}
+				if okTag {
+					seen["tagged"]++
+				} else {
+					bad = append(bad, fmt.Sprintf("on path [%s] the ethertype is read after a tag but the tag fields are not read from bytes 12..15 at TPID(16) PCP(3) DEI(1) VID(12)", pathName(p)))
+				}
+			default:
+				bad = append(bad, fmt.Sprintf("on path [%s] the ethertype the payload switch uses is read from %s: neither bytes 12..13 nor, after a tag, bytes 16..17", pathName(p), et.String()))
+			}
+		}
+		switch {
+		case len(bad) > 0:
+			r.Fail(VViolation, "lanes", "protocol.Ethernet", "dec/frame", pos, summarise(bad))
+		case seen["untagged"] == 0 || seen["tagged"] == 0:
+			r.Fail(VViolation, "lanes", "protocol.Ethernet", "dec/frame", pos, fmt.Sprintf("the decoder has %d untagged and %d tagged accepting paths; both are specified", seen["untagged"], seen["tagged"]))
+		default:
+			r.OK("lanes", "protocol.Ethernet", "dec/frame", pos, "ethertype from bytes 12..13, or after a tag (TPID/PCP/DEI/VID from 12..15) from bytes 16..17: the payload switch sees the type after the tag", true)
+		}
+	}
+}
+
+// ---------------------------------------------------------------- demux
+
+func demuxRule(w *World, r *Report, spec *pktSpec) {
+	var fns []string
+	for fn := range spec.Demux {
+		if !strings.HasPrefix(fn, "_") {
+			fns = append(fns, fn)
+		}
+	}
+	sort.Strings(fns)
+	for _, fn := range fns {
+		var d pktDemux
+		if err := json.Unmarshal(spec.Demux[fn], &d); err != nil {
+			r.Fail(VUnmapped, "demux", fn, "", "-", "malformed table row: "+err.Error())
+			continue
+		}
+		fi := w.Funcs[fn]
+		if fi == nil {
+			r.Fail(VViolation, "demux", fn, "", "-", "the decoder no longer exists (anchor of the rule cannot be resolved)")
+			continue
+		}
+		info := fi.Pkg.TypesInfo
+		var sw *ast.SwitchStmt
+		ast.Inspect(fi.Decl.Body, func(n ast.Node) bool {
+			if s, ok := n.(*ast.SwitchStmt); ok && s.Tag != nil && sw == nil {
+				if t := info.TypeOf(s.Tag); t != nil && isIntType(t) {
+					sw = s
+				}
+			}
+			return true
+		})
+		if sw == nil {
+			r.Fail(VViolation, "demux", fn, "", w.Pos(fi.Decl.Pos()), "no switch on a protocol number found in the decoder")
+			continue
+		}
+		tagOK := false
+		tagText := types.ExprString(sw.Tag)
+		if se, ok := unparen(sw.Tag).(*ast.SelectorExpr); ok && se.Sel.Name == d.On {
+			tagOK = true
+		} else if id, ok := unparen(sw.Tag).(*ast.Ident); ok {
+			ast.Inspect(fi.Decl.Body, func(n ast.Node) bool {
+				if as, ok := n.(*ast.AssignStmt); ok && len(as.Lhs) == 1 && len(as.Rhs) == 1 {
+					if l, ok := as.Lhs[0].(*ast.Ident); ok && info.ObjectOf(l) == info.ObjectOf(id) && as.Pos() < sw.Pos() {
+						if se, ok := unparen(as.Rhs[0]).(*ast.SelectorExpr); ok && se.Sel.Name == d.On {
+							tagOK = true
+						}
+					}
+				}
+				return true
+			})
+		}
+		pos := w.Pos(sw.Pos())
+		if tagOK {
+			r.OK("demux", fn, "tag", pos, "the switch is on "+tagText+", the "+d.On+" field of the header", true)
+		} else {
+			r.Fail(VViolation, "demux", fn, "tag", pos, "the switch is on "+tagText+", which is not the "+d.On+" field the table names")
+		}
+		present := map[string]bool{}
+		for _, st := range sw.Body.List {
+			cc := st.(*ast.CaseClause)
+			alloc := ""
+			var allocField string
+			for _, b := range cc.Body {
+				ast.Inspect(b, func(n ast.Node) bool {
+					as, ok := n.(*ast.AssignStmt)
+					if !ok || len(as.Lhs) != 1 || len(as.Rhs) != 1 || alloc != "" {
+						return true
+					}
+					t := info.TypeOf(as.Rhs[0])
+					if t == nil {
+						return true
+					}
+					if _, isCall := unparen(as.Rhs[0]).(*ast.CallExpr); !isCall {
+						return true
+					}
+					if pt, ok := t.Underlying().(*types.Pointer); ok {
+						if k := w.KindOfType(pt.Elem()); k != nil {
+							alloc = k.Name
+							allocField = types.ExprString(as.Lhs[0])
+						}
+					}
+					return true
+				})
+			}
+			if cc.List == nil {
+				if alloc != "" && alloc != "util.Buffer" {
+					r.Fail(VViolation, "demux", fn, "default", w.Pos(cc.Pos()), "the default case allocates "+alloc+": unknown protocol numbers must fall to the opaque buffer")
+				} else {
+					r.OK("demux", fn, "default", w.Pos(cc.Pos()), "unknown numbers fall to the opaque buffer", false)
+				}
+				continue
+			}
+			for _, e := range cc.List {
+				c, isC := constIntOf(info, e)
+				if !isC {
+					r.Fail(VUndecided, "demux", fn, types.ExprString(e), w.Pos(e.Pos()), "case value is not a constant")
+					continue
+				}
+				code := fmt.Sprint(c)
+				present[code] = true
+				want, mapped := d.Cases[code]
+				switch {
+				case !mapped && (alloc == "" || alloc == "util.Buffer"):
+					r.OK("demux", fn, code, w.Pos(e.Pos()), "number without a table row handled as opaque payload", false)
+				case !mapped:
+					r.Fail(VUnmapped, "demux", fn, code, w.Pos(e.Pos()), fmt.Sprintf("protocol number %s allocates %s but spec/packet_layout.json has no row for it", code, alloc))
+				case alloc == want:
+					r.OK("demux", fn, code, w.Pos(e.Pos()), fmt.Sprintf("%s (%s) allocates %s", types.ExprString(e), code, alloc), true)
+				default:
+					got := alloc
+					if got == "" {
+						got = "nothing"
+					}
+					r.Fail(VViolation, "demux", fn, code, w.Pos(e.Pos()), fmt.Sprintf("%s (%s) allocates %s; the number is assigned to %s", types.ExprString(e), code, got, want))
+				}
+				if mapped && alloc == want && (strings.HasSuffix(want, "HopByHopHeader") || strings.HasSuffix(want, "RoutingHeader") || strings.HasSuffix(want, "FragmentHeader")) {
+					nextOK, advOK := false, false
+					for _, b := range cc.Body {
+						ast.Inspect(b, func(n ast.Node) bool {
+							as, ok := n.(*ast.AssignStmt)
+							if !ok || len(as.Lhs) != 1 || len(as.Rhs) != 1 {
+								return true
+							}
+							rhs := types.ExprString(as.Rhs[0])
+							if as.Tok == token.ASSIGN && types.ExprString(as.Lhs[0]) == tagText && rhs == allocField+".NextHeader" {
+								nextOK = true
+							}
+							if as.Tok == token.ADD_ASSIGN && strings.Contains(rhs, allocField+".Len()") {
+								advOK = true
+							}
+							return true
+						})
+					}
+					if nextOK && advOK {
+						r.OK("demux", fn, code+"/chain", w.Pos(cc.Pos()), "continues with "+allocField+".NextHeader and advances by "+allocField+".Len()", true)
+					} else {
+						r.Fail(VViolation, "demux", fn, code+"/chain", w.Pos(cc.Pos()), fmt.Sprintf("the extension-header case does not both continue with %s.NextHeader and advance by %s.Len() (next: %v, advance: %v)", allocField, allocField, nextOK, advOK))
+					}
+				}
+			}
+		}
+		for _, c := range d.Required {
+			if !present[c] {
+				r.Fail(VViolation, "demux", fn, c, pos, fmt.Sprintf("protocol number %s (%s) has no case: its payload is no longer decoded as that kind", c, d.Cases[c]))
+			}
+		}
+	}
+}
+
+// ---------------------------------------------------------------- presence
+
+// presenceEthernet: the encoder emits the 802.1Q tag under a condition on the decoded value; the decoder must
+// leave that condition true whenever it found a tag.
+func presenceEthernet(w *World, r *Report) {
+	enc, dec := w.Funcs["protocol.Ethernet.MarshalBinary"], w.Funcs["protocol.Ethernet.UnmarshalBinary"]
+	if enc == nil || dec == nil {
+		r.Fail(VViolation, "presence", "protocol.Ethernet", "vlan", "-", "the Ethernet codec no longer exists")
+		return
+	}
+	var cond ast.Expr
+	ast.Inspect(enc.Decl.Body, func(n ast.Node) bool {
+		is, ok := n.(*ast.IfStmt)
+		if !ok || cond != nil {
+			return true
+		}
+		uses := false
+		ast.Inspect(is.Body, func(m ast.Node) bool {
+			if c, ok := m.(*ast.CallExpr); ok {
+				if se, ok := unparen(c.Fun).(*ast.SelectorExpr); ok && se.Sel.Name == "MarshalBinary" && strings.HasSuffix(types.ExprString(se.X), ".VLANID") {
+					uses = true
+				}
+			}
+			return true
+		})
+		if uses {
+			cond = is.Cond
+		}
+		return true
+	})
+	pos := w.Pos(enc.Decl.Pos())
+	if cond == nil {
+		r.Fail(VViolation, "presence", "protocol.Ethernet", "vlan", pos, "the encoder never emits the 802.1Q tag")
+		return
+	}
+	var reads []string
+	ast.Inspect(cond, func(n ast.Node) bool {
+		if se, ok := n.(*ast.SelectorExpr); ok {
+			if in, ok := unparen(se.X).(*ast.SelectorExpr); ok && in.Sel.Name == "VLANID" {
+				reads = append(reads, se.Sel.Name)
+			}
+		}
+		return true
+	})
+	bi := &bvInterp{w: w, fi: dec, info: dec.Pkg.TypesInfo, tolerant: true}
+	recv, sub := bvRecvOf(w, dec, nil)
+	paths := bi.run(newBvCtx(), recv, sub, []*bvVal{symView("P", ValOf("len(P)"))}, 0, nil)
+	var free []string
+	tagged := 0
+	for _, p := range paths {
+		vv := p.RecvSub["VLANID"]
+		if vv == nil || vv.Fields == nil {
+			continue
+		}
+		tp := vv.Fields["TPID"]
+		if len(tp.Bits) == 0 || tp.Bits[0].K != 's' || !strings.HasPrefix(tp.Bits[0].Src, "P[") {
+			continue
+		}
+		tagged++
+		for _, f := range reads {
+			v := vv.Fields[f]
+			allWire := len(v.Bits) > 0
+			for _, b := range v.Bits {
+				if b.K == '1' {
+					allWire = false
+				}
+			}
+			if allWire && !strings.Contains(strings.Join(free, ","), f) {
+				free = append(free, f)
+			}
+		}
+	}
+	condText := types.ExprString(cond)
+	switch {
+	case tagged == 0:
+		r.Fail(VUndecided, "presence", "protocol.Ethernet", "vlan", pos, "no decoder path that finds a tag could be followed")
+	case len(free) > 0:
+		r.Fail(VViolation, "presence", "protocol.Ethernet", "vlan", w.Pos(cond.Pos()), fmt.Sprintf("the encoder emits the tag only when %s, but a decoded tag leaves %s as found on the wire, where every value including 0 is legal: a priority-tagged frame (VID 0) decodes with its tag and is encoded without it", condText, strings.Join(free, ", ")))
+	default:
+		r.OK("presence", "protocol.Ethernet", "vlan", w.Pos(cond.Pos()), "the encoder's condition "+condText+" is established by the decoder on the tagged path", true)
 	}
 }
